@@ -345,4 +345,27 @@ func rulesC02(e *Engine, r *Report) {
 		}
 		r.Min("R02.11", "FileSource.Remove call sites", len(rm), 2)
 	}
+	// ---------------------------------------------------------------- R02.12
+	r.Rule("R02.12", "a verdict is applied to the version it is about: the receiver answers by name, so before the sender marks a cache entry done (and runs the delete callback) on a positive verdict it compares the hash carried by the polled file - the version that was SENT - with the hash of the cache entry, which may meanwhile describe a rewritten, re-scanned version; on a mismatch nothing is marked or deleted")
+	{
+		n := 0
+		for _, s := range e.InvokeSites("sts", "FileCache", "Done") {
+			cc := s.Instr.Common()
+			if len(cc.Args) < 2 || e.Canon(cc.Args[1]) == "nil" {
+				continue // the `file is gone` form, guarded by R02.2
+			}
+			n++
+			key := e.Canon(cc.Args[0])
+			polled := strings.TrimSuffix(strings.TrimPrefix(key, "invoke(sts.Polled.GetName)("), ")")
+			ent := "invoke(sts.FileCache.Get)(p0.Conf.Cache, " + key + ")"
+			cls := labeler(
+				C("(invoke(sts.Cached.GetHash)("+ent+") == invoke(sts.Polled.GetHash)("+polled+"))", "sameVersion"),
+				C("(invoke(sts.Polled.GetHash)("+polled+") == invoke(sts.Cached.GetHash)("+ent+"))", "sameVersion"),
+				C("("+ent+" == nil)", "noEntry"),
+			)
+			e.Guarded(r, "R02.12", e.ShortName(s.Fn)+": FileCache.Done("+shorten(key)+", callback) only for the version that was sent", s.Fn, only(s.Instr.(ssa.Instruction)), cls,
+				func(l LabelSet) bool { return l.HasAny("sameVersion", "noEntry") }, "cache entry's hash == polled file's hash (or no entry)")
+		}
+		r.Min("R02.12", "FileCache.Done calls with a delete callback", n, 1)
+	}
 }
